@@ -2,6 +2,7 @@ SPECIFICATION GSpec
 CONSTANTS
   Threads = {1}
   Dev = {}
+  CmdSet = {"continue", "pause", "next", "setBps0", "setBps1", "stackTrace"}
   MaxReqs = 6
   MaxQueued = 2
   MaxStops = 6
